@@ -4785,6 +4785,8 @@ func (t *Terminal) Loop() error {
 						}
 						t.previewer.lines = result.lines
 						t.previewer.spinner = result.spinner
+						// The command has ended when there is no spinner
+						t.previewer.final = len(result.spinner) == 0
 						if t.hasPreviewWindow() && t.previewer.following.Enabled() {
 							t.previewer.offset = util.Max(t.previewer.offset, len(t.previewer.lines)-(t.pwindow.Height()-t.activePreviewOpts.headerLines))
 						} else if result.offset >= 0 {
@@ -4794,8 +4796,11 @@ func (t *Terminal) Loop() error {
 					case reqPreviewRefresh:
 						t.printPreview()
 					case reqPreviewDelayed:
-						t.previewer.version = value.(int64)
-						t.printPreviewDelayed()
+						// The notice may arrive after the final result of the command
+						if !t.previewer.final || t.previewer.version != value.(int64) {
+							t.previewer.version = value.(int64)
+							t.printPreviewDelayed()
+						}
 					case reqPrintQuery:
 						exit(func() int {
 							t.printer(string(t.input))
